@@ -10,7 +10,7 @@ echo "|---|---|---|---|" >> $out
 for d in seeded/*/; do
   sid=$(basename $d)
   [ -f $d/meta.json ] || continue
-  checks=$(python3 -c "import json;print(' '.join(json.load(open('$d/meta.json')).get('caught_by') or [json.load(open('$d/meta.json'))['property']]))")
+  checks=$(python3 /verif/tools/seed_checks.py "$d/meta.json")
   first=$(echo $checks | cut -d' ' -f1)
   rest=$(echo $checks | cut -s -d' ' -f2-)
   res=$(tools/try_seed.sh $d $first $rest 2>&1)
